@@ -527,7 +527,7 @@ def estimated_depletion(P, th, zroot, zmin, tpot, epot, rain, runoff):
     transpiration and evaporation of the day before), minus what the day's rain leaves after runoff, minus any water the
     root zone still holds above field capacity.  Written out from the profile and the water contents; returns
     (depletion, total available water)."""
-    rootdepth = round(max(zroot, zmin), 2)
+    rootdepth = float(round(np.float64(max(zroot, zmin)), 2))     # (numpy's rounding, as in the package: 0.325 -> 0.32)
     dzsum, dz = P["dzsum"], P["dz"]
     sto = int(np.argwhere(dzsum >= rootdepth).flatten()[0])
     act = fc = wp = 0.0
